@@ -242,6 +242,7 @@ type c15H struct {
 	sinceGoodFaults int  // injected failures / edits since the last verified apply
 	restoreInjected int
 	saveInjected    int
+	raceFired       int // racing out-of-band edits that fired during the current Apply (each can fail one restore)
 
 	good        map[string][]string // kernel snapshot right after the last verified apply
 	goodDesired map[string]string   // desired content key per chain at that time
@@ -524,7 +525,7 @@ func (h *c15H) apply(label string) bool {
 			}
 		}
 	}
-	h.restoreInjected, h.saveInjected = 0, 0
+	h.restoreInjected, h.saveInjected, h.raceFired = 0, 0, 0
 	logStart := len(h.k.Log)
 	var pv any
 	func() {
@@ -557,8 +558,10 @@ func (h *c15H) apply(label string) bool {
 		if !gaveUp {
 			panic(pv)
 		}
-		if h.restoreInjected < 10 && h.saveInjected < 4 {
-			h.fail("Apply gave up (%s) although only %d restore and %d save failures were injected during the call", msg, h.restoreInjected, h.saveInjected)
+		// Felix retries a failed restore 10 times and a failed save 3 times.  Every injected
+		// failure and every racing edit can account for one failed restore.
+		if h.restoreInjected+h.raceFired < 10 && h.saveInjected < 4 {
+			h.fail("Apply gave up (%s) although only %d restore failures, %d racing edits and %d save failures were injected during the call", msg, h.restoreInjected, h.raceFired, h.saveInjected)
 		}
 		h.classes["gave-up-panic"] = true
 		h.haveGood = false
@@ -944,6 +947,7 @@ func TestVerifC15IptablesSync(t *testing.T) {
 				// Another program edits the table between Felix's save and its restore.
 				lines, class := pickEdit(t)
 				h.k.BeforeRestore = append(h.k.BeforeRestore, func() {
+					h.raceFired++
 					if h.external(lines...) {
 						h.classes["race-"+class] = true
 					}
